@@ -273,8 +273,40 @@ def sweep_model(repo, budget, seed, binary=None):
         return None, 0, err
     checked = 0
     with tempfile.TemporaryDirectory(prefix="climodel", dir=WORK) as tmp:
+        # a WIDE cube (70 variables: more columns than fit a machine word); the expected rows are known without a truth table
+        nvar = 70
+        lits = [(f"x{i:03}", i % 3 != 0) for i in range(nvar)]
+        wide = " & ".join((n if pos else "-" + n) for n, pos in lits)
+        want_cells = ["True" if pos else "False" for _, pos in lits]
+        for opts in (["-m", "-t"], ["-t", "-f", "true"], ["-m", "-t", "-f", "true"]):
+            checked += 1
+            case = json.dumps({"formula": wide, "ordering": None, "options": opts, "channel": "model"})
+            r = _run(binary, opts + ["--evaluate=" + wide], tmp)
+            if r is None:
+                continue
+            if r[0] == 101 or "panicked at" in r[2]:
+                return {"mode": "climodel", "case": case, "expected": "a table", "actual": "panic: " + r[2][:300]}, checked, ""
+            pr = _rows(r[1])
+            if r[0] != 0 or pr is None:
+                return {"mode": "climodel", "case": case, "expected": "a truth table", "actual": f"exit {r[0]}: {r[1][:200]} {r[2][-200:]}"}, checked, ""
+            trows = [x for x in pr[1] if x[-1] == "True"]
+            if pr[0] != [n for n, _ in lits] or len(trows) != 1 or trows[0][:-1] != want_cells:
+                return {"mode": "climodel", "case": case, "expected": "one satisfying row: every positive literal True, every negated one False (70 columns)",
+                        "actual": (" ".join(pr[0][:6]) + " ... / " + " | ".join(" ".join(x[:6]) + " .. " + " ".join(x[62:]) for x in trows[:2]))[:400]}, checked, ""
+        checked += 1
+        r = _run(binary, ["-m", "-v", "--evaluate=" + wide], tmp)
+        if r is not None:
+            if r[0] == 101 or "panicked at" in r[2]:
+                return {"mode": "climodel", "case": json.dumps({"formula": wide, "ordering": None, "options": ["-m", "-v"], "channel": "model"}), "expected": "a listing", "actual": "panic: " + r[2][:300]}, checked, ""
+            ls = [l.strip() for l in r[1].split("\n") if l.strip().endswith(";")]
+            if r[0] == 0 and (len(ls) != 1 or [x.strip() for x in ls[0][:-1].split(",")] != [n for n, pos in lits if pos]):
+                return {"mode": "climodel", "case": json.dumps({"formula": wide, "ordering": None, "options": ["-m", "-v"], "channel": "model"}),
+                        "expected": "one line naming exactly the positive literals", "actual": r[1][:400]}, checked, ""
         for f in MODEL_FORMULAS:
-            ref = subprocess.run([rbin, "ref", "formula", f], capture_output=True, text=True, timeout=60)
+            try:
+                ref = subprocess.run([rbin, "ref", "formula", f], capture_output=True, text=True, timeout=60)
+            except subprocess.TimeoutExpired:
+                continue
             try:
                 rj = json.loads(ref.stdout.strip().split("\n")[-1])
             except Exception:
@@ -448,7 +480,10 @@ def sweep_table(repo, budget, seed, binary=None, aspect=None):
         fixed = list(TABLE_FORMULAS)
         extra = [x for x in _random_formulas(budget // 75, seed) if x not in fixed] if budget else []
         for f in fixed + extra:
-            ref = subprocess.run([rbin, "ref", "formula", f], capture_output=True, text=True, timeout=60)
+            try:
+                ref = subprocess.run([rbin, "ref", "formula", f], capture_output=True, text=True, timeout=60)
+            except subprocess.TimeoutExpired:
+                continue
             try:
                 rj = json.loads(ref.stdout.strip().split("\n")[-1])
             except Exception:
